@@ -175,7 +175,7 @@ impl Rd {
                 let t = run(&mut twin, &mut buf);
                 // the clone shares the file offset: put it back
                 good.seek(SeekFrom::Start(p)).ok()?;
-                if exact { None } else { Some(t) }
+                Some(t)
             }
             _ => None,
         }
